@@ -4,6 +4,7 @@ Property theorems only (helper lemmas live in `Lemmas/C09.lean`).  Everything is
 arbitrary element type `α` (interactions are opaque) and arbitrary accessors.
 -/
 import CobaVerif.Lemmas.C09
+import CobaVerif.Generated.C09Shortcuts
 
 namespace Coba.C09
 
@@ -476,5 +477,62 @@ theorem unbatch_mixed_counterexample2 :
 theorem unbatch_mixed_counterexample3 :
     unbatchG [[("c", .val (.atom 1))], [("c", .col [.atom 3, .atom 4])]]
       = .ok [[("c", .val (.atom 1))], [("c", .col [.atom 3, .atom 4])]] := rfl
+
+/-! ### Phase 4: selecting filters behind a shared `.cache()` / `.chunk()` -/
+
+/-- any history of reads of pipelines `cached environment → D_i` that share ONE Cache object, each
+read pulling `need_i` items from the cache and then abandoning its generator: read `i` delivers
+`D_i` applied to the first `need_i` interactions (all of them for `none`) — whatever was read,
+completed or abandoned before -/
+theorem cached_pipeline_reads {α β} (nSlice : Nat) (items : List α) (reads : List (Option Nat × (List α → β))) :
+    cachedRun nSlice items none reads = reads.map (fun r => r.2 (readSpec items r.1)) :=
+  cachedRun_spec nSlice items none trivial reads
+
+/-- hence, when every downstream filter only depends on the prefix it pulls, every read delivers
+its own filter applied to ALL interactions of the environment -/
+theorem cached_pipeline_exact {α β} (nSlice : Nat) (items : List α) (reads : List (Option Nat × (List α → β)))
+    (hp : ∀ r ∈ reads, r.2 (readSpec items r.1) = r.2 items) :
+    cachedRun nSlice items none reads = reads.map (fun r => r.2 items) := cachedRun_full nSlice items reads hp
+
+/-- `Take(count, strict)` pulls `count` items and depends on nothing else -/
+theorem take_need {α} (count : Option Nat) (strict : Bool) (items : List α) :
+    take count strict (readSpec items (takeNeed count)) = take count strict items := take_need' count strict items
+
+/-- `Slice(start, stop, step)` pulls `stop` items and depends on nothing else -/
+theorem slice_need {α} (start stop : Option Nat) (step : Nat) (items : List α) :
+    slice start stop step (readSpec items (sliceNeed stop)) = slice start stop step items :=
+  slice_need' start stop step items
+
+/-- the hypothesis of `cached_pipeline_exact` is met by a history mixing `take(3)` and complete reads -/
+example : cachedRun 25 (List.range 60) none [(takeNeed (some 3), take (some 3) false), (none, identityF)]
+    = [[0, 1, 2], List.range 60] := by decide
+
+/-- the seeded change of round g (abandoned read seals the partial cache): 25 of 60 on the next read -/
+theorem cache_sealing_counterexample :
+    cacheRunSealing 25 (List.range 60) none [some 1, none] = [[0], List.range 25] := sealing_cex
+
+/-! ### Phase 4: translator tie — the shortcut table of `Environments` -/
+
+/-- the shortcut → filter-class(arguments) table and the constructor signatures extracted from the
+current coba source are the ones the model assumes (a shortcut wired to another filter, with
+swapped / dropped arguments or changed defaults breaks this obligation) -/
+theorem shortcuts_wired_as_modelled :
+    Coba.Generated.C09.extracted = true ∧ Coba.Generated.C09.shortcuts = shortcutTable
+      ∧ Coba.Generated.C09.ctors = ctorTable := by decide
+
+/-- under that table every argument of a selecting / ordering shortcut reaches the constructor
+parameter of its name: `take(n, strict)` is `Take(count := n, strict := strict)`, … -/
+theorem shortcut_arguments_reach_their_parameters :
+    let f := feeds Coba.Generated.C09.shortcuts Coba.Generated.C09.ctors
+    f "take" "Take" "count" = some "$n_interactions" ∧ f "take" "Take" "strict" = some "$strict"
+    ∧ f "slice" "Slice" "start" = some "$start" ∧ f "slice" "Slice" "stop" = some "$stop" ∧ f "slice" "Slice" "step" = some "$step"
+    ∧ f "reservoir" "Reservoir" "count" = some "$n_interactions" ∧ f "reservoir" "Reservoir" "strict" = some "$strict"
+    ∧ f "reservoir" "Reservoir" "seed" = some "each($seeds)"
+    ∧ f "where" "Where" "n_interactions" = some "$n_interactions" ∧ f "where" "Where" "n_actions" = some "$n_actions"
+    ∧ f "where" "Where" "n_features" = some "$n_features"
+    ∧ f "riffle" "Riffle" "spacing" = some "$spacing" ∧ f "riffle" "Riffle" "seed" = some "$seed"
+    ∧ f "shuffle" "Shuffle" "seed" = some "each($seeds)" ∧ f "sort" "Sort" "*keys" = some "*$keys"
+    ∧ f "batch" "Batch" "batch_size" = some "$batch_size" ∧ f "cache" "Cache" "n_slice" = some "25"
+    ∧ f "take" "Slice" "start" = none := by decide
 
 end Coba.C09
